@@ -19,6 +19,7 @@ pub mod c16;
 pub mod c17;
 pub mod c18;
 pub mod c19;
+pub mod c20;
 pub mod linerules;
 
 pub const TABLE: &[(&str, fn(&mut Run))] = &[
@@ -41,4 +42,5 @@ pub const TABLE: &[(&str, fn(&mut Run))] = &[
     ("C17", c17::run),
     ("C18", c18::run),
     ("C19", c19::run),
+    ("C20", c20::run),
 ];
